@@ -400,6 +400,17 @@ INSTANCES.update({
 })
 
 
+# a captured set with events pushed under spans that outlive their roots: the copies travel the LATE path
+# (default configuration: "stale" sets of traces that are already committed), several of them in one cycle
+# (seeded wave 9: all late sets of a cycle post-processed with one shared attachment map)
+INSTANCES.update({
+    "lc_late_p": (dict(seq(["pushc", "drop"], MaxOps=4, MaxSpans=4, MaxRoots=2, MaxTraces=2, MaxLocal=2, MaxAtt=2, MaxLs=1, MaxScopes=1, MaxCycles=2),
+                       prefix=True, prog={1: [S("root", tr=1, smp=True), S("root", tr=2, smp=True), S("child", ps=[101]), S("child", ps=[102]),
+                                              S("lcstart"), S("lenter"), S("levent"), S("lprops"), S("lexit"), S("lccollect"),
+                                              S("drop", h=101), S("drop", h=102)]}), "edge", {}),
+})
+
+
 # more local-parent scopes nested than the span stack holds (C09 "when a local scope exceeds its limits"; seeded S72:
 # a refused scope silences the enclosing one)
 INSTANCES.update({
